@@ -32,6 +32,15 @@ def oracle(c):
     ctx = parsing.render(c)
     _last["n"] = len(tracts)
     _last["err"] = False
+    # what the public converter returns for a tract's string is the caller's to edit (a report row, say): the tracts keep
+    # decomposing their own string all the same
+    if c.get("edit_converter_output", len(text) % 2 == 0):
+        from pytrs import trs_to_dict, TRS
+        for t in tracts[:3]:
+            row = trs_to_dict(t.trs)
+            for k in list(row):
+                row[k] = row[k].upper() if isinstance(row[k], str) else -1
+            TRS.trs_to_dict(t.trs).clear()
     for i, t in enumerate(tracts):
         m = TRS_G.fullmatch(t.trs)
         if not m:
